@@ -18,7 +18,7 @@ func init() {
 		Prop:  "C06",
 		Title: "Delimited and fixed-length fields carry exactly the input text",
 		Explanation: "Structural necessary conditions, decided on the resolved program: " +
-			"R06a no transformation between the library reader and the node: the data of every text node created in the csv/fixed-length reader packages is resolved backwards (SSA value flow with access paths: Phi, conversions between string and []byte, indexing, sub-slicing, append/copy, reader struct fields matched field-based over the whole repository, parameters, helper results) and must be an element of the []string returned by encoding/csv.Reader.Read resp. (a sub-slice of) the []byte returned by the line source (ios.ByteReadLine), or the empty string; any call, concatenation or lookup on the way is a violation; " +
+			"R06a no transformation between the library reader and the node: the data of every text node created in the csv/fixed-length reader packages is resolved backwards (SSA value flow with access paths: Phi, conversions between string and []byte, indexing, sub-slicing, append/copy, reader struct fields matched field-based over the whole repository, parameters, helper results) and must be an element of the []string returned by encoding/csv.Reader.Read resp. (a sub-slice of) the []byte returned by the line source (ios.ByteReadLine), or the empty string; any call, concatenation or lookup on the way is a violation (R06a/R06e/R06h: a creation inside a helper with several static call sites is decided once per call site, the helper's parameters bound to that call's arguments, and counts once per call site); " +
 			"R06b csv decoder configuration: every csv.Reader the reader packages construct gets, on every path, Comma = first rune ([]rune(s)[0] or utf8.DecodeRuneInString(s)) of the FileDecl field tagged \"delimiter\" (the rune is followed backwards through option structs, helper parameters and helper results to the expressions that compute it; each must have that shape) and a constant negative FieldsPerRecord; TrimLeadingSpace, LazyQuotes and Comment are never set anywhere in the library; " +
 			"R06c header verification (old csv reader): on the first Read (flag false) every path to the record fetch passes through the header check (the callee that reads the field tagged header_row_index) and through the false edge of the test of its error; on the true edge the same error is returned with a nil node and nothing is fetched; the flag is only set to true after a header check; the header check can only return nil, io.EOF or the reader's fatal type; " +
 			"R06d only truly empty lines are skipped: on every re-read cycle of a line source the only condition that depends on the line is len(line) compared with 0 (or the equivalent <1 / >=1); " +
@@ -283,7 +283,7 @@ func runC06(c *core.Ctx) {
 	prov := r.newProv(c)
 	c.Check(len(r.pkgs) >= 4, "R06", "reader packages", token.NoPos, fmt.Sprintf("%d delimited/fixed-length reader packages", len(r.pkgs)), fmt.Sprintf("only %d delimited/fixed-length reader packages found (csv, csv2, fixedlength, fixedlength2 expected)", len(r.pkgs)))
 	c06RuleA(c, r, prov)
-	c.Floor("R06a", 5, "text node creations: old csv, csv2, old fixed-length (2), fixedlength2")
+	c.Floor("R06a", 7, "text node creations per call context: old csv, csv2 linesToNode (2 callers), old fixed-length (2), fixedlength2 linesToNode (2 callers)")
 	c06RuleB(c, r, prov)
 	c.Floor("R06b", 5, "two csv constructions (Comma, FieldsPerRecord each) and the library-wide option inventory")
 	c06RuleC(c, r, prov)
@@ -291,13 +291,13 @@ func runC06(c *core.Ctx) {
 	c06RuleD(c, r)
 	c.Floor("R06d", 2, "old fixed-length readLine, fixedlength2 readLine")
 	c06RuleE(c, r, prov)
-	c.Floor("R06e", 4, "csv2 linesToNode, fixedlength2 linesToNode, old fixed-length by-rows and by-header-footer")
+	c.Floor("R06e", 6, "csv2 linesToNode and fixedlength2 linesToNode (each from the rows-based and the header/footer-based reader), old fixed-length by-rows and by-header-footer")
 	c06RuleF(c, r, prov)
 	c.Floor("R06f", 1, "old csv recordToNode")
 	c06RuleG(c, r)
 	c.Floor("R06g", 2, "line sources of the two fixed-length readers")
 	c06RuleH(c, r, prov)
-	c.Floor("R06h", 3, "column cuts of the two fixed-length readers (old reader: two creation sites)")
+	c.Floor("R06h", 4, "column cuts of the two fixed-length readers (old reader: two creation sites; fixedlength2 linesToNode: two call contexts)")
 }
 
 func c06IsConst(v ssa.Value, exact string) bool {
@@ -328,9 +328,10 @@ func c06RuleA(c *core.Ctx, r *c06roles, prov *c08Prov) {
 			c.Unresolved("R06a", "text nodes of "+core.Rel(pk.p.Path()), "the package reads units but creates no text node through idr.CreateNode(idr.TextNode, …)")
 			continue
 		}
-		for _, call := range calls {
-			key := core.FuncKey(call.Parent()) + " text node data"
-			ts := prov.Resolve(call.Call.Args[1], nil)
+		for _, site := range c06TextSites(r, pk, prov) {
+			call := site.tn
+			key := site.fk + " text node data"
+			ts := prov.Resolve(call.Call.Args[1], site.ctx)
 			nSrc := 0
 			bad := c08Subset(ts, func(t c08Term) bool {
 				if c08IsEmptyConst(t) {
